@@ -192,7 +192,7 @@ class History:
         form = "block" if self.form == "plane_strain" else self.form
         if kind == "at_yield":
             if k % 2 == 1 or (k == 0 and r.random() < 0.3):
-                return self._walk(H, 1.5 * self.ey, 0.05), dt, "kick", None
+                return self._walk(H, 1.5 * self.ey, max(0.05, 5 * self.ey)), dt, "kick", None
             delta = float(AT_YIELD_DELTAS[int(r.integers(len(AT_YIELD_DELTAS)))])
             Y = float(self.law.flow_static(e_old))
             s = (Y + delta * self.law.Y0) / (2.0 * self.law.mu * ref.SQ32)
